@@ -1,4 +1,5 @@
-"""Validation run of the statement-level tie of `serialize` and `deserialize` (tools/py2stmt.py + coq/Model/RenderCheck.v, RenderCheckD.v):
+"""Validation run of the statement-level tie of `serialize`, `deserialize` and `__init__` (tools/py2stmt.py + coq/Model/RenderCheck.v,
+RenderCheckD.v, RenderCheckI.v):
 the corpus (tools/minieo.py, without 'mini-eo-literals') + N random SpecGen trees through the REAL generator.
 
 usage: render_validate.py [n_random_trees=200] [seed=7]"""
@@ -38,7 +39,10 @@ def main():
     problems = render_stream(None, entries, f'rv{seed}')
     st = render_stream.last
     print(f"render: trees={st['trees']} serialize: classes={st['classes']} outside_theorem={st['outside_theorem']}  "
-          f"deserialize: methods={st['deserialize_methods']} outside_theorem={st['deserialize_outside_theorem']}  problems={st['problems']}")
+          f"deserialize: methods={st['deserialize_methods']} outside_theorem={st['deserialize_outside_theorem']}  "
+          f"__init__: methods={st['init_methods']} outside_theorem={st['init_outside_theorem']}  problems={st['problems']}")
+    for t, c in st.get('init_outside', [])[:20]:
+        print("OUTSIDE(__init__)", t, c)
     for t, c in st.get('deserialize_outside', [])[:20]:
         print("OUTSIDE(deserialize)", t, c)
     for p in problems[:20]:
